@@ -40,7 +40,7 @@ ARGS = {
     ("C08", "quick"): ["-modes", "seq,timed,special,conc", "-seq", "700", "-timed", "120", "-conc", "200"],
     ("C08", "thorough"): ["-modes", "seq,timed,special,conc,kill", "-seq", "5000", "-timed", "800", "-conc", "600", "-kill", "150", "-len", "30"],
     ("C15", "quick"): ["-modes", "seq,timed,special", "-seq", "800", "-timed", "200"],
-    ("C15", "thorough"): ["-modes", "seq,timed,special,conc", "-seq", "6000", "-timed", "1500", "-conc", "200", "-len", "30"],
+    ("C15", "thorough"): ["-modes", "seq,timed,special,conc,kill", "-seq", "6000", "-timed", "1500", "-conc", "200", "-kill", "60", "-len", "30"],
 }
 
 ASSUMPTIONS = [
@@ -87,6 +87,7 @@ def eval_shards(ctx, files):
         return f, rc, out
     mism, failures = [], []
     cov = [0] * len(COV_KEYS)
+    kills = {}
     with ThreadPoolExecutor(max_workers=V.JOBS) as ex:
         for f, rc, out in ex.map(one, files):
             if rc != 0 or "M =" not in out:
@@ -99,11 +100,20 @@ def eval_shards(ctx, files):
                 if not items:
                     failures.append((f, "unparsed mismatch output: " + body[:2000]))
                 mism.extend(items)
+            if "W =" in out:
+                wb = out.split("W =", 1)[1].split("\n     :", 1)[0]
+                for x in re.findall(r"(\d+)%N", wb):
+                    x = int(x)
+                    key = ("state_after_last_acknowledged_call" if x == 0 else "call_complete_ack_cut_off" if x == 1000
+                           else "no_crash_point_matches" if x == 999 else "between_atomic_steps_of_the_next_call")
+                    kills[key] = kills.get(key, 0) + 1
             if "C =" in out:
                 cb = out.split("C =", 1)[1].split("\n     :", 1)[0]
                 nums = [int(x) for x in re.findall(r"(\d+)%N", cb)]
                 for i, n in enumerate(nums[:len(cov)]):
                     cov[i] += n
+    if kills:
+        ctx.coverage["parts"].setdefault("filesink-correspondence", {})["sigkill_landed"] = kills
     return mism, cov, failures
 
 
